@@ -83,6 +83,10 @@ pub struct C14Checker {
 
 /// expression with separator-bearing numbers used in the second part of every probe round
 const NUMBERS_EXPR: usize = 31;
+/// expression left current at the end of every probe round: its canonical form does not depend on the Language (no
+/// separators, no function names), so the first getter of the next round can be compared with a fresh session also when
+/// the Language was different when it was set
+const NEUTRAL_EXPR: &str = "<math><mi>x</mi><mo>+</mo><mn>1</mn><mo>=</mo><mi>y</mi><mo>&#x2212;</mo><mi>&#x3B1;</mi></math>";
 
 impl C14Checker {
     pub fn new(trace: &Trace, _session: usize) -> C14Checker {
@@ -161,7 +165,8 @@ impl C14Checker {
         // after a repair or a switch back the first call may be ANY getter, not the set_mathml / speech that the round
         // starts with (the overview, navigation and intent rule sets share tables with the speech rules)
         self.pre.remove(tag);
-        if let (Some(src0), true) = (s.cur_src.clone(), self.set_under.as_deref() == Some(language.as_str())) {
+        let neutral_is_current = s.cur_src.as_deref() == Some(NEUTRAL_EXPR);
+        if let (Some(src0), true) = (s.cur_src.clone(), neutral_is_current || self.set_under.as_deref() == Some(language.as_str())) {
             let op = [Op::Overview, Op::Braille(IdRef::Empty), Op::Speech][self.pre_getter].clone();
             let res = s.call(&op);
             self.check_o2(s, &op, &res);
@@ -193,6 +198,16 @@ impl C14Checker {
         let names = pref_names(&s.ctx.base);
         let snapshot: Vec<String> = s.read_prefs(&names).into_iter().filter(|(n, _)| n != "CheckRuleFiles").map(|(n, v)| format!("{}={}", n, v)).collect();
         results.push(("preference snapshot".to_string(), Res::Ok(snapshot.join("\n"))));
+        // leave the neutral expression current for the first getter of the next round
+        {
+            let op = Op::SetMathml(ExprRef::Lit(NEUTRAL_EXPR.to_string()));
+            let res = s.call(&op);
+            self.check_o2(s, &op, &res);
+            if res.is_ok() {
+                self.set_under = Some(language.clone());
+            }
+            results.push(("set_mathml (neutral)".to_string(), norm(&res)));
+        }
         self.srcs.insert(tag.to_string(), (src1, src2));
         // O3: while only never-loadable content faults are outstanding, an Ok output must be the output the same
         // configuration and expression gave before any fault (a half-loaded table must never speak).
@@ -214,7 +229,7 @@ impl C14Checker {
                 for (i, (name, res)) in results.iter().enumerate() {
                     let set2_ok = results.get(7).map(|(_, r)| r.is_ok()).unwrap_or(false);
                     let independent = match i {
-                        0 | 7 | 10 => true,
+                        0 | 7 | 10 | 11 => true,
                         1..=3 => set_ok,
                         8 | 9 => set2_ok,
                         _ => nav_ok,
